@@ -1,11 +1,11 @@
 SPECIFICATION Spec
 CONSTANTS
   TS <- Q_TS
-  MS <- MC_MS
+  MS <- Q_MS
   SC <- MC_SC
   OPS <- MC_OPS
   BATCH <- MC_BATCH
-  ITEMS <- MC_ITEMS
+  ITEMS <- Q_ITEMS
   WIDTHS <- MC_WIDTHS
 INVARIANT DesignOK
 INVARIANT RankLawOK
